@@ -78,6 +78,8 @@ class PX:
         self.pure = tuple(pure)  # callee text patterns that are side-effect free & uninteresting (no event)
         self.hier = Hierarchy(repo)
         self.truncated = 0
+        self.visited = set()
+        self.ctxstack = []
 
     # ------------------------------------------------------------------ enumeration
     def explore(self, func: FuncRef, setup):
@@ -115,6 +117,7 @@ class PX:
             self._script, self._pos, self._taken, self._new = script, 0, [], []
             self.events, self.memo, self.counters, self.symfields = [], {}, {}, {}
             self.epoch, self.assumes, self.timeouts, self.top_frame = 0, [], [], None
+            self.ctxstack = []
             try:
                 v = entry()
                 paths.append(self._path("return", v))
@@ -150,9 +153,10 @@ class PX:
         return c
 
     # ------------------------------------------------------------------ events
-    def emit(self, kind, what, args=(), kwargs=None, node=None, extra=None, frame=None):
+    def emit(self, kind, what, args=(), kwargs=None, node=None, extra=None, frame=None, callee=None):
         ev = Event(kind, what, args, kwargs, getattr(node, "lineno", None), extra,
-                   frame.depth if frame else 0, frame.func.short if frame and frame.func else None)
+                   frame.depth if frame else 0, frame.func.short if frame and frame.func else None,
+                   self.epoch, callee, self.ctxstack)
         self.events.append(ev)
         return ev
 
@@ -203,6 +207,8 @@ class PX:
         locs = {}
         pos = [x.arg for x in a.posonlyargs + a.args]
         args = list(args)
+        if fref is not None:
+            self.visited.add(fref.qual)
         is_method = (not isinstance(func, Closure)) and func.cls is not None and not _is_static(func)
         if is_method and not isinstance(fnode, ast.Lambda):
             if _is_classmethod(func):
@@ -534,11 +540,13 @@ class PX:
         is_timeout = text.endswith("asyncio_timeout") or text.endswith("asyncio.timeout")
         if is_timeout:
             self.timeouts.append(text)
+        self.ctxstack = self.ctxstack + [text]
         try:
             run_body()
         finally:
             if is_timeout:
                 self.timeouts.pop()
+            self.ctxstack = self.ctxstack[:-1]
             self.emit("exit", text, node=st, frame=fr)
 
     def _with_generator(self, fval, target, args, kwargs, item, run_body, fr, st, text):
@@ -1181,6 +1189,7 @@ class PX:
     def do_call(self, fval, text, args, kw, fr, node, awaited):
         model = self.model_for(text)
         if model is not None:
+            self._callee = _short(fval) if isinstance(fval, Sym) else None
             r = self.apply_model(model, text, args, kw, fr, node, awaited)
             if awaited:
                 self.epoch += 1
@@ -1209,8 +1218,8 @@ class PX:
             short = fval.short
             if short in self.hier.parent or short.endswith(("Error", "Exception")):
                 return Obj(fval, {"args": tuple(args), **kw}, tag=short)
-            return self.opaque(text, args, kw, fr, node, awaited)
-        return self.opaque(text, args, kw, fr, node, awaited)
+            return self.opaque(text, args, kw, fr, node, awaited, _short(fval))
+        return self.opaque(text, args, kw, fr, node, awaited, _short(fval) if isinstance(fval, Sym) else None)
 
     def construct(self, cls, text, args, kw, fr, node):
         if cls.is_enum:
@@ -1253,7 +1262,8 @@ class PX:
         o = Obj(cls, fields, tag=f"{cls.name}#{self._count('new:' + cls.name)}")
         return o
 
-    def opaque(self, text, args, kw, fr, node, awaited):
+    def opaque(self, text, args, kw, fr, node, awaited, callee=None):
+        self._callee = callee
         n = self._count("call:" + text)
         res = Sym(f"{text}#{n}")
         if awaited:
@@ -1265,7 +1275,7 @@ class PX:
             return self._take(Outcomes(*outs), text, args, kw, fr, node, "await")
         if any(_match(text, p) for p in self.pure):
             return res
-        self.emit("call", text, args, kw, node=node, frame=fr, extra=res)
+        self.emit("call", text, args, kw, node=node, frame=fr, extra=res, callee=callee)
         return res
 
     def apply_model(self, model, text, args, kw, fr, node, awaited=False, kind=None):
@@ -1273,7 +1283,7 @@ class PX:
         if callable(model) and not isinstance(model, Outcomes):
             model = model(self, text, args, kw, fr)
             if not isinstance(model, Outcomes):
-                self.emit(kind, text, args, kw, node=node, frame=fr, extra=model)
+                self.emit(kind, text, args, kw, node=node, frame=fr, extra=model, callee=getattr(self, "_callee", None))
                 return model
         return self._take(model, text, args, kw, fr, node, kind)
 
@@ -1284,10 +1294,10 @@ class PX:
         if kind == "await":
             self.epoch += 1
         if o[0] == "ok":
-            self.emit(kind, text, args, kw, node=node, frame=fr, extra=o[1])
+            self.emit(kind, text, args, kw, node=node, frame=fr, extra=o[1], callee=getattr(self, "_callee", None))
             return o[1]
         name = o[1]
-        self.emit(kind, text, args, kw, node=node, frame=fr, extra=f"raises {name}")
+        self.emit(kind, text, args, kw, node=node, frame=fr, extra=f"raises {name}", callee=getattr(self, "_callee", None))
         raise Exc(name, (), origin=f"{kind} {text}", value=o[2] if len(o) > 2 else None)
 
     # -- python-level methods on concrete containers
